@@ -1360,3 +1360,109 @@ def c18_u5(ctx):
             yield bad("C18-U5", key, at(f, t["span"]["line"]), "Finished prepared in unacknowledged mode without testing that closure was requested")
     if n == 0:
         raise Anchor("C18-U5", "prepare_finished call sites reachable in unacknowledged mode")
+
+
+# ================================================================ C01-H
+@rule("C01", "C01-H", 1, "the staged file is created only when none is held: a staging file that may already hold received bytes is never replaced while the held-range list still counts them", also=("C09",))
+def c01_h(ctx):
+    fns = impl_fns(ctx, RECV)
+
+    def track(key):
+        return key[0] == "val" and key[1] == "self.file_handle"
+
+    it = inter(ctx, RECV, track, "file_handle")
+    n = 0
+    for f, b, j, s, ps in field_writes(fns, "self.file_handle"):
+        if f.name == "new" or ps != "self.file_handle":
+            continue
+        eb = ExprBuilder(ctx.prog, f)
+        e = simp(eb.rvalue(s["rv"])) if j >= 0 else None
+        if e is not None and e[0] == "agg" and e[3] == "None":
+            continue  # dropping the handle (shutdown / after publication)
+        n += 1
+        key = "%s:self.file_handle<-Some" % f.name
+        fl = it.flows.get(f.norm)
+        worlds = (fl.at_stmt(b, j) if j >= 0 else fl.at_term(b)) if fl is not None else frozenset()
+        good, w = all_worlds_satisfy(worlds, lambda dw: val_in(dw, "self.file_handle", {"None"}))
+        if good and worlds:
+            yield ok("C01-H", key, at(f, s["span"]["line"]), "a staging file is opened only under file_handle.is_none() (chain %s)" % " -> ".join(short(x) for x, _ in it.chain(f.norm)))
+        else:
+            chain = " -> ".join(short(x) for x, _ in it.chain(f.norm))
+            yield bad("C01-H", key, at(f, s["span"]["line"]), "a new staging file replaces the current one without the test that none is held (chain %s; state %s): bytes already received and counted in the range list are lost from the file that will be published" % (chain, world_str(w) if w is not None else "unreachable"))
+    if n == 0:
+        raise Anchor("C01-H", "assignment of Some(..) to RecvTransaction.file_handle")
+
+
+# ================================================================ C01-P
+@rule("C01", "C01-P", 1, "the receiver reports the file as retained only after it copied the staged file to the destination (no shortcut around the copy)")
+def c01_p(ctx):
+    fns = impl_and_closures(ctx, RECV)
+    n = 0
+    for f, b, j, s in agg_sites(fns, "FileStatusCode", "Retained"):
+        n += 1
+        dom = dominators(f)
+        eb = ExprBuilder(ctx.prog, f)
+        copies = []
+        for b2, t2 in f.all_calls():
+            cal = ctx.prog.callee_of(t2)[1] or ctx.prog.callee_of(t2)[0] or ""
+            if cal.startswith("std::io::copy") or cal.endswith("io::copy"):
+                e = eb.call(b2, t2)
+                src = sstr(e[3][0])
+                dst = simp(e[3][1])
+                dsts = [sstr(x) for x in eb.var_defs(dst[1])] if dst[0] == "place" and re.match(r"^\w+$", dst[1]) else [expr_str(dst)]
+                if "RecvTransaction::get_handle(" in src and dsts and all("FileStore>::open(" in x or "FileStore::open(" in x for x in dsts):
+                    copies.append(b2)
+        key = "%s:FileStatusCode::Retained" % f.name + ("#%d" % n if n > 1 else "")
+        if copies and any(cb in dom.get(b, ()) and cb != b for cb in copies):
+            yield ok("C01-P", key, at(f, s["span"]["line"]), "Retained is built only after io::copy(staged handle -> opened destination) returned")
+        else:
+            yield bad("C01-P", key, at(f, s["span"]["line"]), "the file status Retained is produced on a path that did not copy the staged file to the destination (the stored file may be an older one of the same size / checksum, or nothing)")
+    if n == 0:
+        raise Anchor("C01-P", "construction of FileStatusCode::Retained in the receiver")
+
+
+# ================================================================ C04-S2
+@rule("C04", "C04-S2", 2, "the report the sending user gets with a received Finished PDU is generated after the transaction took over that PDU's condition (the sender never reports its own earlier 'no error' for a delivery the receiver failed)", also=("C13",))
+def c04_s2(ctx):
+    sfns = impl_and_closures(ctx, SEND)
+    n = 0
+    for f, b, j, s in agg_sites(sfns, "FinishedIndication"):
+        eb = ExprBuilder(ctx.prog, f, user_stop=True)
+        e = eb.rvalue(s["rv"])
+        fl = dict(zip(e[4], e[5]))
+        resp = expr_str(fl.get("filestore_responses")) if fl.get("filestore_responses") else ""
+        m = re.match(r"^(\w+)\.filestore_response$", resp)
+        if not m or not eb.var_defs(m.group(1)) or not all("@Finished.0" in expr_str(x) for x in eb.var_defs(m.group(1))):
+            continue  # an end without a Finished PDU
+        pduvar = m.group(1)
+        n += 1
+        key = "%s:FinishedIndication.report" % f.name + ("#%d" % n if n > 1 else "")
+        rep = fl.get("report")
+        rtxt = expr_str(rep) if rep else "?"
+        # the block in which generate_report() is evaluated for this aggregate
+        gb = None
+        if rep is not None:
+            for x in walk(simp(rep)):
+                if x[0] == "call" and (callee_name(x) or "").endswith("SendTransaction::generate_report") and isinstance(x[4], tuple):
+                    gb = x[4][0]
+            if gb is None and rep[0] == "place" and re.match(r"^\w+$", rep[1]):
+                for d in eb.var_defs(rep[1]):
+                    for x in walk(simp(d)):
+                        if x[0] == "call" and (callee_name(x) or "").endswith("SendTransaction::generate_report") and isinstance(x[4], tuple):
+                            gb = x[4][0]
+        if gb is None:
+            yield bad("C04-S2", key, at(f, s["span"]["line"]), "the report of the Finished indication is %s, not generate_report()" % rtxt[:120])
+            continue
+        dom = dominators(f)
+        writes = []
+        for _f, wb, wj, ws, ps in field_writes([f], "self.condition"):
+            if wj < 0 or ps != "self.condition":
+                continue
+            if expr_str(simp(eb.rvalue(ws["rv"]))) == "%s.condition" % pduvar:
+                writes.append((wb, wj))
+        if any(wb in dom.get(gb, ()) and wb != gb for wb, wj in writes) or any(wb == gb for wb, wj in writes):
+            yield ok("C04-S2", key, at(f, s["span"]["line"]), "self.condition <- %s.condition dominates generate_report()" % pduvar)
+        else:
+            yield bad("C04-S2", key, at(f, s["span"]["line"]), "generate_report() for the Finished indication runs before self.condition is taken from the received Finished PDU: the sending user is told the sender's earlier condition (NoError) for a delivery the receiver reported as failed")
+    if n == 0:
+        raise Anchor("C04-S2", "FinishedIndication built from a received Finished PDU in the sender")
